@@ -79,9 +79,15 @@ type Scenario struct {
 	Place Placement `json:"placement"`
 	// IncompleteMod: the scratch module's go.mod lacks a requirement the go
 	// command could add by itself (every run must fail and touch nothing)
-	IncompleteMod bool   `json:"incomplete_mod,omitempty"`
-	StartAliased  bool   `json:"start_aliased,omitempty"` // the source imports scn/dep under an alias at first
-	Steps         []Step `json:"steps"`
+	IncompleteMod bool `json:"incomplete_mod,omitempty"`
+	StartAliased  bool `json:"start_aliased,omitempty"` // the source imports scn/dep under an alias at first
+	// FromRoot: moq is started in the module root with the source package given
+	// as ./src and a relative -out given relative to the root (otherwise: started
+	// in the source package directory with ".", as a go:generate line would)
+	FromRoot bool `json:"from_root,omitempty"`
+	// MainPkg: the source package is a command (package main with func main)
+	MainPkg bool   `json:"main_pkg,omitempty"`
+	Steps   []Step `json:"steps"`
 }
 
 func (s Step) String() string {
@@ -114,6 +120,12 @@ func (sc *Scenario) String() string {
 	var p []string
 	if sc.IncompleteMod {
 		p = append(p, "[go.mod incomplete]")
+	}
+	if sc.FromRoot {
+		p = append(p, "[run from the module root on ./src]")
+	}
+	if sc.MainPkg {
+		p = append(p, "[source is package main]")
 	}
 	for _, s := range sc.Steps {
 		p = append(p, s.String())
@@ -148,8 +160,18 @@ var errnosFor = map[string][]string{
 	"sync":   {"EIO"},
 }
 
-// GenScenario draws a scenario from the tape.
+// GenScenario draws a scenario from the tape. How moq is invoked (from where,
+// on what kind of package) is drawn from a side tape of the same seed.
 func GenScenario(tp *tape.Tape, seed uint64, pf Profile) *Scenario {
+	sc := genScenario(tp, seed, pf)
+	side := tape.New(tape.MixS(seed, "invocation"))
+	sc.FromRoot = side.Chance(250, 1000)
+	inPlace := sc.Place.Pkg == "" && sc.Place.Symlink == "" && sc.Place.Writable
+	sc.MainPkg = inPlace && !sc.IncompleteMod && side.Chance(200, 1000)
+	return sc
+}
+
+func genScenario(tp *tape.Tape, seed uint64, pf Profile) *Scenario {
 	sc := &Scenario{Seed: seed}
 	// writable placements are more interesting; unwritable ones are failure inputs
 	if tp.Chance(150, 1000) {
